@@ -1517,4 +1517,298 @@ example : dataEq ⟨.value, .position⟩ (.seq none [.scalar none (.int 1), .sca
       (.seq none [.scalar none (.int 1), .scalar none (.int 1), .scalar none (.int 2)]) = false := by
   decide +kernel
 
+/-! ## what `msEq` means: the same number of elements of every `==`-class -/
+
+theorem removeFirstNode_some {f : Node → Bool} : ∀ {ys ys' : List Node},
+    removeFirstNode f ys = some ys' → ∃ y, f y = true ∧ ys.Perm (y :: ys') := by
+  intro ys
+  induction ys with
+  | nil => intro ys' h; simp [removeFirstNode] at h
+  | cons z zs ih =>
+    intro ys' h
+    unfold removeFirstNode at h
+    split at h
+    · cases h; exact ⟨z, by assumption, List.Perm.refl _⟩
+    · cases hr : removeFirstNode f zs with
+      | none => rw [hr] at h; cases h
+      | some ws =>
+        rw [hr] at h
+        simp only [Option.map_some, Option.some.injEq] at h
+        subst h
+        obtain ⟨y, hy, hp⟩ := ih hr
+        exact ⟨y, hy, (List.Perm.cons z hp).trans (List.Perm.swap _ _ _)⟩
+
+theorem removeFirstNode_none {f : Node → Bool} : ∀ {ys : List Node},
+    removeFirstNode f ys = none → ∀ y ∈ ys, f y = false := by
+  intro ys
+  induction ys with
+  | nil => intro _ y hy; cases hy
+  | cons z zs ih =>
+    intro h y hy
+    by_cases hz : f z = true
+    · simp [removeFirstNode, hz] at h
+    · cases hr : removeFirstNode f zs with
+      | some w => simp [removeFirstNode, hz, hr] at h
+      | none =>
+        cases hy with
+        | head => simpa using hz
+        | tail _ hy' => exact ih hr y hy'
+
+/-- **Meaning of the value-synchronised comparison of the specification**: the greedy `msEq` succeeds
+exactly when the two lists hold the same number of elements of every `==`-class (multiset equality
+up to Python `==`). -/
+theorem msEq_iff_balanced : ∀ (xs ys : List Node), (∀ x ∈ xs, wf x = true) → (∀ y ∈ ys, wf y = true) →
+    (msEq (fun x y => eqv y x) xs ys = true ↔ Balanced xs ys) := by
+  intro xs
+  induction xs with
+  | nil =>
+    intro ys _ hwy
+    constructor
+    · intro h
+      have : ys = [] := by simpa [msEq] using h
+      subst this; intro z _; rfl
+    · intro h; rw [balanced_nil hwy h]; rfl
+  | cons x xs ih =>
+    intro ys hwx hwy
+    have hx := hwx x (List.mem_cons_self ..)
+    have hwx' : ∀ u ∈ xs, wf u = true := fun u hu => hwx u (List.mem_cons_of_mem _ hu)
+    constructor
+    · intro h
+      unfold msEq at h
+      cases hr : removeFirstNode (fun y => eqv y x) ys with
+      | none => rw [hr] at h; cases h
+      | some ys' =>
+        rw [hr] at h
+        obtain ⟨y, hy, hp⟩ := removeFirstNode_some hr
+        have hwy' : ∀ u ∈ ys', wf u = true := fun u hu => hwy u (hp.symm.subset (List.mem_cons_of_mem _ hu))
+        have hyw : wf y = true := hwy y (hp.symm.subset (List.mem_cons_self ..))
+        have hb := (ih ys' hwx' hwy').mp h
+        intro z hz
+        have h2 : cnt z ys = cnt z (y :: ys') := hp.countP_eq _
+        rw [h2]
+        simp only [cnt, List.countP_cons]
+        rw [eqv_congr_right hx hyw hy z hz]
+        have := hb z hz
+        simp only [cnt] at this
+        omega
+    · intro hb
+      obtain ⟨y0, hy0, he0⟩ := balanced_exists hx hwy hb
+      unfold msEq
+      cases hr : removeFirstNode (fun y => eqv y x) ys with
+      | none => rw [removeFirstNode_none hr y0 hy0] at he0; cases he0
+      | some ys' =>
+        obtain ⟨y, hy, hp⟩ := removeFirstNode_some hr
+        have hwy' : ∀ u ∈ ys', wf u = true := fun u hu => hwy u (hp.symm.subset (List.mem_cons_of_mem _ hu))
+        have hyw : wf y = true := hwy y (hp.symm.subset (List.mem_cons_self ..))
+        exact (ih ys' hwx' hwy').mpr (balanced_step hx hyw hp hy hb)
+
+/-- a reordering of a list is equal to it as data under value synchronisation -/
+theorem msEq_of_perm (xs ys : List Node) (hwx : ∀ x ∈ xs, wf x = true) (hp : xs.Perm ys) :
+    msEq (fun x y => eqv y x) xs ys = true := by
+  have hwy : ∀ y ∈ ys, wf y = true := fun y hy => hwx y (hp.symm.subset hy)
+  rw [msEq_iff_balanced xs ys hwx hwy]
+  intro z _
+  exact hp.countP_eq _
+
+/-! ## identity-key synchronisation (`--aoh key`), one list level -/
+
+theorem removeFirst_split {f : Node → Bool} : ∀ {rem : List (Nat × Node)} {y : Nat × Node} {rem' : List (Nat × Node)},
+    removeFirst f rem = some (y, rem') →
+    ∃ pre post, rem = pre ++ y :: post ∧ rem' = pre ++ post ∧ (∀ z ∈ pre, f z.2 = false) ∧ f y.2 = true := by
+  intro rem
+  induction rem with
+  | nil => intro y rem' h; simp [removeFirst] at h
+  | cons z zs ih =>
+    intro y rem' h
+    by_cases hz : f z.2 = true
+    · simp only [removeFirst, hz, if_true, Option.some.injEq, Prod.mk.injEq] at h
+      obtain ⟨rfl, rfl⟩ := h
+      exact ⟨[], zs, rfl, rfl, (fun _ h => by cases h), hz⟩
+    · cases hr : removeFirst f zs with
+      | none => simp [removeFirst, hz, hr] at h
+      | some r =>
+        obtain ⟨w, ws⟩ := r
+        simp only [removeFirst, hz, hr] at h
+        simp only [Bool.false_eq_true, if_false, Option.some.injEq, Prod.mk.injEq] at h
+        obtain ⟨rfl, rfl⟩ := h
+        obtain ⟨pre, post, h1, h2, h3, h4⟩ := ih hr
+        refine ⟨z :: pre, post, by simp [h1], by simp [h2], ?_, h4⟩
+        intro u hu
+        cases hu with
+        | head => simpa using hz
+        | tail _ hu' => exact h3 u hu'
+
+theorem removeFirstNode_split {g : Node → Bool} : ∀ (pre : List Node) (y : Node) (post : List Node),
+    (∀ z ∈ pre, g z = false) → g y = true → removeFirstNode g (pre ++ y :: post) = some (pre ++ post) := by
+  intro pre
+  induction pre with
+  | nil => intro y post _ hy; simp [removeFirstNode, hy]
+  | cons z zs ih =>
+    intro y post hpre hy
+    have hz := hpre z (List.mem_cons_self ..)
+    simp only [List.cons_append, removeFirstNode, hz, Bool.false_eq_true, if_false,
+      ih y post (fun u hu => hpre u (List.mem_cons_of_mem _ hu)) hy, Option.map_some]
+
+theorem removeFirstNode_eq_none {g : Node → Bool} : ∀ (l : List Node), (∀ z ∈ l, g z = false) → removeFirstNode g l = none := by
+  intro l
+  induction l with
+  | nil => intro _; rfl
+  | cons z zs ih =>
+    intro h
+    simp only [removeFirstNode, h z (List.mem_cons_self ..), Bool.false_eq_true, if_false,
+      ih (fun u hu => h u (List.mem_cons_of_mem _ hu)), Option.map_none]
+
+theorem wf_keyVal {ka : Key} {x v : Node} (hw : wf x = true) (h : keyVal ka x = some v) : wf v = true := by
+  cases x with
+  | map a es => exact (wf_map hw).2 (ka, v) (mem_of_lookup (by simpa [keyVal] using h))
+  | scalar a w => simp [keyVal] at h
+  | seq a xs => simp [keyVal] at h
+  | set a ms => simp [keyVal] at h
+
+/-- records that are equal under `==` carry equal identity values -/
+theorem keyMatch_of_eqv {ka : Key} {x y : Node} (hx : wf x = true) (hy : wf y = true)
+    (he : eqv x y = true) (hi : hasIdentity ka x = true) : keyMatch ka x y = true := by
+  unfold hasIdentity at hi
+  cases hk : keyVal ka x with
+  | none => rw [hk] at hi; cases hi
+  | some v =>
+    cases x with
+    | map a es =>
+      cases y with
+      | map b fs =>
+        simp only [keyVal] at hk
+        simp only [eqv, Bool.and_eq_true] at he
+        obtain ⟨w, hw, hvw⟩ := (eqvEntries_iff es fs).mp he.1 (ka, v) (mem_of_lookup hk)
+        have hwv : wf v = true := (wf_map hx).2 _ (mem_of_lookup hk)
+        have hww : wf w = true := (wf_map hy).2 _ (mem_of_lookup hw)
+        simp only [keyMatch, keyVal, hk, hw]
+        exact eqv_symm v w hwv hww hvw
+      | scalar b w => simp [eqv] at he
+      | seq b ys => simp [eqv] at he
+      | set b ns => simp [eqv] at he
+    | scalar a w => simp [keyVal] at hk
+    | seq a xs => simp [keyVal] at hk
+    | set a ms => simp [keyVal] at hk
+
+/-- two records matching the same record match each other -/
+theorem keyMatch_common {ka : Key} {x y y' : Node} (hx : wf x = true) (hy : wf y = true) (hy' : wf y' = true)
+    (h1 : keyMatch ka x y = true) (h2 : keyMatch ka x y' = true) : keyMatch ka y y' = true := by
+  unfold keyMatch at h1 h2 ⊢
+  cases hvx : keyVal ka x with
+  | none => simp [hvx] at h1
+  | some vx =>
+    cases hvy : keyVal ka y with
+    | none => simp [hvx, hvy] at h1
+    | some vy =>
+      cases hvy' : keyVal ka y' with
+      | none => simp [hvx, hvy'] at h2
+      | some vy' =>
+        simp only [hvx, hvy, hvy'] at h1 h2 ⊢
+        have wx := wf_keyVal hx hvx
+        have wy := wf_keyVal hy hvy
+        have wy' := wf_keyVal hy' hvy'
+        exact eqv_trans vy' vx vy wy' wx wy h2 (eqv_symm vy vx wy wx h1)
+
+/-- **One list level of `--aoh key`**: when every left record carries the identity key and no two
+right records share an identity value, the KEY report of the two record lists is clean exactly when
+the lists are equal as multisets of `==`-equal records (the specification's `dataEq` for this mode).
+Without the hypotheses the statement fails on the code (finding C06-K2). -/
+theorem key_clean_iff_msEq (s : Bool) (c : Cfg) (q : Addr) (ka : Key) : ∀ (xs : List Node) (i : Nat) (rem : List (Nat × Node)),
+    (∀ x ∈ xs, wf x = true) → (∀ y ∈ rem, wf y.2 = true) → (∀ x ∈ xs, hasIdentity ka x = true) →
+    (rem.map (fun p => p.2)).Pairwise (fun a b => keyMatch ka a b = false) →
+    clean (diffKey s c q false ka i xs rem) = msEq (fun x y => eqv x y) xs (rem.map (fun p => p.2)) := by
+  intro xs
+  induction xs with
+  | nil => intro i rem _ _ _ _; cases rem <;> simp [diffKey, msEq, mkAdd]
+  | cons x xs ih =>
+    intro i rem hwx hwr hid hpw
+    have hx := hwx x (List.mem_cons_self ..)
+    have hix := hid x (List.mem_cons_self ..)
+    simp only [diffKey, msEq]
+    cases hrf : removeFirst (keyMatch ka x) rem with
+    | none =>
+      have hnone := removeFirst_none hrf
+      rw [removeFirstNode_eq_none]
+      · simp [mkDel]
+      · intro z hz
+        obtain ⟨p, hp, rfl⟩ := List.mem_map.mp hz
+        cases he : eqv x p.2 with
+        | false => rfl
+        | true => have := hnone p hp; rw [keyMatch_of_eqv hx (hwr p hp) he hix] at this; cases this
+    | some r =>
+      obtain ⟨y, rem'⟩ := r
+      obtain ⟨pre, post, h1, h2, h3, h4⟩ := removeFirst_split hrf
+      subst h1 h2
+      have hwy : wf y.2 = true := hwr y (by simp)
+      simp only [List.map_append, List.map_cons] at hpw ⊢
+      have hpost : ∀ z ∈ post, keyMatch ka x z.2 = false := by
+        intro z hz
+        cases hm : keyMatch ka x z.2 with
+        | false => rfl
+        | true =>
+          have hyz := keyMatch_common hx hwy (hwr z (by simp [hz])) h4 hm
+          have := (List.pairwise_append.mp hpw).2.1
+          have := (List.pairwise_cons.mp this).1 z.2 (List.mem_map.mpr ⟨z, hz, rfl⟩)
+          rw [hyz] at this; cases this
+      have hpw' : ((pre ++ post).map (fun p => p.2)).Pairwise (fun a b => keyMatch ka a b = false) := by
+        rw [List.map_append]
+        exact hpw.sublist (List.Sublist.append_left (List.sublist_cons_self _ _) _)
+      have hrec := ih (i + 1) (pre ++ post) (fun u hu => hwx u (List.mem_cons_of_mem _ hu))
+        (fun z hz => hwr z (by
+          rcases List.mem_append.mp hz with h | h
+          · exact List.mem_append_left _ h
+          · exact List.mem_append_right _ (List.mem_cons_of_mem _ h)))
+        (fun u hu => hid u (List.mem_cons_of_mem _ hu)) hpw'
+      have hpre' : ∀ z ∈ pre.map (fun p => p.2), eqv x z = false := by
+        intro z hz
+        obtain ⟨p, hp, rfl⟩ := List.mem_map.mp hz
+        cases he : eqv x p.2 with
+        | false => rfl
+        | true => have := h3 p hp; rw [keyMatch_of_eqv hx (hwr p (by simp [hp])) he hix] at this; cases this
+      cases hexy : eqv x y.2 with
+      | true =>
+        rw [removeFirstNode_split _ _ _ hpre' hexy]
+        simp only [Bool.false_eq_true, if_false, clean_append, scalarEntry, hexy, if_true, clean_cons, clean_nil]
+        rw [hrec, List.map_append]
+        simp
+      | false =>
+        rw [removeFirstNode_eq_none]
+        · simp [scalarEntry, hexy]
+        · intro z hz
+          rcases List.mem_append.mp hz with h | h
+          · exact hpre' z h
+          · cases h with
+            | head => exact hexy
+            | tail _ h' =>
+              obtain ⟨p, hp, rfl⟩ := List.mem_map.mp h'
+              cases he : eqv x p.2 with
+              | false => rfl
+              | true => have := hpost p hp; rw [keyMatch_of_eqv hx (hwr p (by simp [hp])) he hix] at this; cases this
+
+/-- `key_clean_iff_msEq` at the root of two documents that are record lists compared under
+`--aoh key`: the report (of the code and of the strict variant) is clean exactly when the two
+lists are equal as data. -/
+theorem diff_clean_iff_dataEq_key_root (s : Bool) (c : Cfg) (a b : Option Str) (xs ys : List Node)
+    (hm : listMode c xs ys = .key) (hl : wf (.seq a xs) = true) (hr : wf (.seq b ys) = true)
+    (hid : ∀ x ∈ xs, hasIdentity (keyAttr ys) x = true)
+    (hpw : ys.Pairwise (fun u v => keyMatch (keyAttr ys) u v = false)) :
+    clean (diff s c (.seq a xs) (.seq b ys)) = dataEq c (.seq a xs) (.seq b ys) := by
+  simp only [diff, diffBetween, dataEq, hm]
+  have := key_clean_iff_msEq s c [] (keyAttr ys) xs 0 (enumFrom 0 ys) (wf_seq_mem hl)
+    (fun y hy => wf_seq_mem hr y.2 (mem_enumFrom hy)) hid (by rw [enumFrom_snd]; exact hpw)
+  rw [enumFrom_snd] at this
+  exact this
+
+/-- the hypotheses of `diff_clean_iff_dataEq_key_root` on `[{a: 1, b: x}, {a: 2}]` vs `[{a: 2}, {a: 1, b: y}]` -/
+example :
+    let xs := [Node.map none [(.str ['a'], .scalar none (.int 1)), (.str ['b'], .scalar none (.str ['x']))],
+               Node.map none [(.str ['a'], .scalar none (.int 2))]]
+    let ys := [Node.map none [(.str ['a'], .scalar none (.int 2))],
+               Node.map none [(.str ['a'], .scalar none (.int 1)), (.str ['b'], .scalar none (.str ['y']))]]
+    listMode ⟨.position, .key⟩ xs ys = .key ∧ xs.all (hasIdentity (keyAttr ys)) = true
+      ∧ keyMatch (keyAttr ys) ys[0]! ys[1]! = false
+      ∧ clean (report ⟨.position, .key⟩ (.seq none xs) (.seq none ys)) = false
+      ∧ dataEq ⟨.position, .key⟩ (.seq none xs) (.seq none ys) = false := by
+  decide +kernel
+
 end Ypv.C06
